@@ -654,4 +654,337 @@ theorem ebLeft_fold (d : Nat) (ops : List (Nat → Nat → K)) (fs : List (Site 
             simp only [List.getElem?_set_self hil, hval]
           · exact r3 i (by omega) hil
 
+/-! ### `expect_batch` as a whole -/
+
+theorem mem_drop_index {β : Type} (fs : List β) (k : Nat) (A : β) (h : A ∈ fs.drop k) :
+    ∃ i, k ≤ i ∧ fs[i]? = some A := by
+  obtain ⟨j, hj, e⟩ := List.mem_drop_iff_getElem.mp h
+  exact ⟨k + j, by omega, by rw [← e]; exact List.getElem?_eq_getElem (by omega)⟩
+
+theorem mem_take_index {β : Type} (fs : List β) (k : Nat) (A : β) (h : A ∈ fs.take k) :
+    ∃ i, i < k ∧ fs[i]? = some A := by
+  obtain ⟨j, hj, e⟩ := List.mem_take_iff_getElem.mp h
+  exact ⟨j, by omega, by rw [← e]; exact List.getElem?_eq_getElem (by omega)⟩
+
+/-- canonical form with centre `c`: left-isometries on the left, right-isometries on the right -/
+def Canonical (fs : List (Site K)) (c : Nat) : Prop :=
+  (∀ i, i < c → ∀ A, fs[i]? = some A → LeftIso A) ∧ (∀ i, c < i → ∀ A, fs[i]? = some A → RightIso A)
+
+theorem expectBatchAt_spec (d : Nat) (ops : List (Nat → Nat → K)) (fs : List (Site K)) (c : Nat)
+    (rt lt : List (RMat K)) (res : List (List K)) (h : expectBatchAt d ops fs c rt lt = some res)
+    (hW : Wf fs) (h1 : headDl fs = 1) (hd : ∀ A ∈ fs, A.d = d) (hc : Canonical fs c)
+    (hrt : ∀ Fc, fs[c]? = some Fc → RightOk fs.length fs (pyRange c fs.length) Fc rt)
+    (hlt : ∀ Fc, fs[c]? = some Fc → LeftOk fs (pyRangeDown c) Fc lt) :
+    res.length = fs.length ∧
+      ∀ i, i < fs.length → res[i]? = some (ops.map (fun O => siteVal O fs i)) := by
+  unfold expectBatchAt at h
+  simp only at h
+  cases hFc : fs[c]? with
+  | none => rw [hFc] at h; simp at h
+  | some Fc =>
+    rw [hFc] at h
+    simp only at h
+    split at h
+    · simp at h
+    · cases hf1 : foldOpt (ebRightStep d fs.length ops fs) (pyRange c fs.length)
+          ⟨Fc, rt, List.replicate fs.length (List.replicate ops.length 0)⟩ with
+      | none => rw [hf1] at h; simp at h
+      | some st1 =>
+        rw [hf1] at h
+        simp only at h
+        cases hf2 : foldOpt (ebLeftStep d ops fs) (pyRangeDown c) ⟨Fc, lt, st1.res⟩ with
+        | none => rw [hf2] at h; simp at h
+        | some st2 =>
+          rw [hf2] at h
+          simp only [Option.some.injEq] at h
+          subst h
+          have hcn : c < fs.length := (List.getElem?_eq_some_iff.mp hFc).1
+          have hRm : ∀ A ∈ fs.drop (c + 1), RightIso A := by
+            intro A hA
+            obtain ⟨i, hi, e⟩ := mem_drop_index fs (c + 1) A hA
+            exact hc.2 i (by omega) A e
+          have hLm : ∀ A ∈ fs.take c, LeftIso A := by
+            intro A hA
+            obtain ⟨i, hi, e⟩ := mem_take_index fs c A hA
+            exact hc.1 i hi A e
+          have hIR : ∀ F, fs[c]? = some F → InvR (leftEnv fs c) F Fc := by
+            intro F hF
+            rw [hFc] at hF
+            simp only [Option.some.injEq] at hF
+            subst hF
+            exact invR_base _ _ (leftEnv_delta_at fs c Fc hFc hW h1 hLm)
+          have hIL : ∀ F, fs[c]? = some F → InvL (rightEnv fs c) F Fc := by
+            intro F hF
+            rw [hFc] at hF
+            simp only [Option.some.injEq] at hF
+            subst hF
+            exact invL_base _ _ (rightEnv_delta_at fs c Fc hFc hW hRm)
+          obtain ⟨a1, a2, a3⟩ := ebRight_fold d ops fs hW hd (fs.length - c) c
+            ⟨Fc, rt, List.replicate fs.length (List.replicate ops.length 0)⟩ st1 (by omega) hRm hIR
+            (hrt Fc hFc) hf1
+          obtain ⟨b1, b2, b3⟩ := ebLeft_fold d ops fs hW h1 hd c ⟨Fc, lt, st1.res⟩ st2 hcn hLm hIL
+            (hlt Fc hFc) hf2
+          simp only [List.length_replicate] at a1 a3
+          refine ⟨by rw [b1, a1], fun i hi => ?_⟩
+          by_cases hic : c ≤ i
+          · rw [b2 i hic]
+            exact a3 i hic hi hi
+          · exact b3 i (by omega) (by rw [a1]; exact hi)
+
+/-! ### diagonal product operators -/
+
+theorem prodOp_diag (ops : List (Nat → Nat → K)) (hdiag : ∀ f ∈ ops, ∀ x y, x ≠ y → f x y = 0)
+    (s t : List Nat) : prodOp ops s t = if s = t then prodOp ops s s else 0 := by
+  induction ops generalizing s t with
+  | nil => cases s <;> cases t <;> simp [prodOp]
+  | cons f ops ih =>
+    cases s with
+    | nil => cases t <;> simp [prodOp]
+    | cons x s =>
+      cases t with
+      | nil => simp [prodOp]
+      | cons y t =>
+        simp only [prodOp, List.cons.injEq]
+        rw [ih (fun g hg => hdiag g (List.mem_cons_of_mem _ hg)) s t]
+        by_cases hxy : x = y
+        · subst hxy
+          by_cases hst : s = t <;> simp [hst]
+        · simp [hxy, hdiag f (List.mem_cons_self ..) x y hxy]
+
+theorem denseProd_diag (d : Nat) (ops : List (Nat → Nat → K)) (fs : List (Site K))
+    (hdiag : ∀ f ∈ ops, ∀ x y, x ≠ y → f x y = 0) :
+    denseProd d ops fs = denseDiag d (fun s => prodOp ops s s) fs := by
+  unfold denseProd denseDiag
+  refine Dark.sumStrings_congr' _ _ _ _ (fun s hs hsd => ?_)
+  have : (fun t => conj (amp fs s) * prodOp ops s t * amp fs t)
+      = fun t => if t = s then conj (amp fs s) * prodOp ops s s * amp fs t else 0 := by
+    funext t
+    rw [prodOp_diag ops hdiag s t]
+    by_cases hst : s = t
+    · subst hst; simp
+    · simp [hst, Ne.symm hst]
+  rw [this, ← hs, sumStrings_indicator d s hsd]
+  ring
+
+theorem prodOp_ident (s : List Nat) : prodOp (List.replicate s.length (identOp : Nat → Nat → K)) s s = 1 := by
+  induction s with
+  | nil => rfl
+  | cons x s ih => simp [List.replicate_succ, prodOp, ih, identOp]
+
+theorem prodOp_skip (i : Nat) (rest : List (Nat → Nat → K)) (s : List Nat) (hi : i ≤ s.length) :
+    prodOp (List.replicate i identOp ++ rest) s s = prodOp rest (s.drop i) (s.drop i) := by
+  induction i generalizing s with
+  | zero => simp
+  | succ i ih =>
+    cases s with
+    | nil => simp at hi
+    | cons x s =>
+      simp only [List.replicate_succ, List.cons_append, prodOp, List.drop_succ_cons]
+      rw [ih s (by simpa using hi)]
+      simp [identOp]
+
+theorem identOp_diag : ∀ x y : Nat, x ≠ y → (identOp : Nat → Nat → K) x y = 0 := by
+  intro x y h; simp [identOp, h]
+
+theorem nOp_diag : ∀ x y : Nat, x ≠ y → (nOp : Nat → Nat → K) x y = 0 := by
+  intro x y h
+  simp only [nOp]
+  split
+  · rename_i h'; exact absurd (h'.1.trans h'.2.symm) h
+  · rfl
+
+theorem oneSiteOps_length (n i : Nat) (O : Nat → Nat → K) (hi : i < n) : (oneSiteOps n i O).length = n := by
+  simp [oneSiteOps]; omega
+
+theorem twoSiteOps_length (n i j : Nat) (O : Nat → Nat → K) (hij : i < j) (hj : j < n) :
+    (twoSiteOps n i j O).length = n := by
+  simp [twoSiteOps]; omega
+
+theorem oneSiteOps_diag (n i : Nat) (O : Nat → Nat → K) (hO : ∀ x y, x ≠ y → O x y = 0) :
+    ∀ f ∈ oneSiteOps n i O, ∀ x y, x ≠ y → f x y = 0 := by
+  intro f hf
+  simp only [oneSiteOps, List.mem_append, List.mem_cons, List.mem_replicate] at hf
+  rcases hf with ⟨_, rfl⟩ | rfl | ⟨_, rfl⟩
+  · exact identOp_diag
+  · exact hO
+  · exact identOp_diag
+
+theorem twoSiteOps_diag (n i j : Nat) (O : Nat → Nat → K) (hO : ∀ x y, x ≠ y → O x y = 0) :
+    ∀ f ∈ twoSiteOps n i j O, ∀ x y, x ≠ y → f x y = 0 := by
+  intro f hf
+  simp only [twoSiteOps, List.mem_append, List.mem_cons, List.mem_replicate] at hf
+  rcases hf with ⟨_, rfl⟩ | rfl | ⟨_, rfl⟩ | rfl | ⟨_, rfl⟩
+  · exact identOp_diag
+  · exact hO
+  · exact identOp_diag
+  · exact hO
+  · exact identOp_diag
+
+theorem drop_eq_getD_cons (s : List Nat) (i : Nat) (hi : i < s.length) :
+    s.drop i = s.getD i 0 :: s.drop (i + 1) := by
+  rw [List.drop_eq_getElem_cons hi]
+  congr 1
+  simp [List.getD_eq_getElem?_getD, List.getElem?_eq_getElem hi]
+
+/-- diagonal matrix element of a one-site operator -/
+theorem prodOp_oneSite (n i : Nat) (O : Nat → Nat → K) (s : List Nat) (hs : s.length = n) (hi : i < n) :
+    prodOp (oneSiteOps n i O) s s = O (s.getD i 0) (s.getD i 0) := by
+  unfold oneSiteOps
+  rw [prodOp_skip i _ s (by omega), drop_eq_getD_cons s i (by omega)]
+  simp only [prodOp]
+  have : n - i - 1 = (s.drop (i + 1)).length := by simp; omega
+  rw [this, prodOp_ident]
+  ring
+
+/-- diagonal matrix element of a two-site operator -/
+theorem prodOp_twoSite (n i j : Nat) (O : Nat → Nat → K) (s : List Nat) (hs : s.length = n) (hij : i < j)
+    (hj : j < n) :
+    prodOp (twoSiteOps n i j O) s s = O (s.getD i 0) (s.getD i 0) * O (s.getD j 0) (s.getD j 0) := by
+  unfold twoSiteOps
+  rw [prodOp_skip i _ s (by omega), drop_eq_getD_cons s i (by omega)]
+  simp only [prodOp]
+  rw [prodOp_skip (j - i - 1) _ _ (by simp; omega), List.drop_drop,
+    show i + 1 + (j - i - 1) = j by omega, drop_eq_getD_cons s j (by omega)]
+  simp only [prodOp]
+  have : n - j - 1 = (s.drop (j + 1)).length := by simp; omega
+  rw [this, prodOp_ident]
+  ring
+
+/-! ### the walk of `get_correlation_matrix` -/
+
+theorem corrAcc0_identity (n d : Nat) (op : Nat → Nat → K) (L R : Nat → Nat → K) :
+    ∑ l ∈ range n, ∑ s ∈ range d, ∑ t ∈ range d, R s l * op t s * L t l
+    = ∑ x ∈ range d, ∑ y ∈ range d, op x y * ∑ a ∈ range n, L x a * R y a := by
+  simp only [Finset.mul_sum]
+  simp only [← Finset.sum_product']
+  refine Finset.sum_nbij' (fun z => (z.2.2, z.2.1, z.1)) (fun z => (z.2.2, z.2.1, z.1)) ?_ ?_ ?_ ?_ ?_
+    <;> reorder_finish
+
+theorem corrAcc0_eq (d : Nat) (op : Nat → Nat → K) (A : Site K) (hd : A.d = d) (r r' : Nat) :
+    get2 (corrAcc0 d op A) r r' = xferF op delta A r' r := by
+  unfold corrAcc0 xferF
+  simp only [get2_memo2, sumTo_eq, conj_eq_star, sandL_delta, hd]
+  exact corrAcc0_identity A.dl d op (fun t l => star (A.t t l r')) (fun s l => A.t s l r)
+
+theorem corrEntry_identity (n d : Nat) (op G : Nat → Nat → K) (L R : Nat → Nat → K) :
+    ∑ t ∈ range d, ∑ t' ∈ range d, (∑ a ∈ range n, ∑ a' ∈ range n, G a' a * R t a * L t' a') * op t' t
+    = ∑ x ∈ range d, ∑ y ∈ range d, op x y * ∑ a ∈ range n, ∑ a' ∈ range n, G a a' * L x a * R y a' := by
+  simp only [Finset.sum_mul, Finset.mul_sum]
+  simp only [← Finset.sum_product']
+  refine Finset.sum_nbij' (fun z => (z.2.1, z.1, z.2.2.2, z.2.2.1)) (fun z => (z.2.1, z.1, z.2.2.2, z.2.2.1))
+    ?_ ?_ ?_ ?_ ?_ <;> reorder_finish
+
+theorem corrEntry_eq (d : Nat) (op : Nat → Nat → K) (B : Site K) (hd : B.d = d) (acc : Arr (Arr K))
+    (G : Nat → Nat → K) (hG : ∀ a a', get2 acc a a' = G a' a) :
+    corrEntry d op B (corrPartial d acc B) = ∑ b ∈ range B.dr, xferF op G B b b := by
+  unfold corrEntry corrPartial xferF sandL
+  simp only [get4_memo4, sumTo_eq, conj_eq_star, hG, hd]
+  refine Finset.sum_congr rfl (fun b _ => ?_)
+  exact corrEntry_identity B.dl d op G (fun x a => star (B.t x a b)) (fun y a => B.t y a b)
+
+theorem corrNext_eq (d : Nat) (B : Site K) (hd : B.d = d) (acc : Arr (Arr K))
+    (G : Nat → Nat → K) (hG : ∀ a a', get2 acc a a' = G a' a) (b b' : Nat) :
+    get2 (corrNext d B (corrPartial d acc B)) b b' = xferF identOp G B b' b := by
+  rw [xferF_ident]
+  unfold corrNext corrPartial sandL
+  simp only [get2_memo2, get4_memo4, sumTo_eq, conj_eq_star, hG, hd]
+  refine Finset.sum_congr rfl (fun t _ => ?_)
+  rw [Finset.sum_comm]
+  exact Finset.sum_congr rfl (fun a _ => Finset.sum_congr rfl (fun a' _ => by ring))
+
+theorem oneSiteOps_zero (n : Nat) (O : Nat → Nat → K) :
+    oneSiteOps (n + 1) 0 O = O :: List.replicate n identOp := by
+  simp [oneSiteOps]
+
+theorem oneSiteOps_succ (n k : Nat) (O : Nat → Nat → K) :
+    oneSiteOps (n + 1) (k + 1) O = identOp :: oneSiteOps n k O := by
+  simp only [oneSiteOps, List.replicate_succ, List.cons_append]
+  have : n + 1 - (k + 1) - 1 = n - k - 1 := by omega
+  rw [this]
+
+theorem corrWalk_spec (d : Nat) (op : Nat → Nat → K) (rest : List (Site K)) (hW : Wf rest)
+    (hd : ∀ A ∈ rest, A.d = d) (hR : ∀ A ∈ rest, RightIso A) (acc : Arr (Arr K)) (G : Nat → Nat → K)
+    (hG : ∀ a a', get2 acc a a' = G a' a) (k : Nat) (hk : k < rest.length) :
+    (corrWalk d op rest acc)[k]? = some (xferAccF rest (oneSiteOps rest.length k op) G 0 0) := by
+  induction rest generalizing acc G k with
+  | nil => simp at hk
+  | cons B rest ih =>
+    have hBd : B.d = d := hd B (List.mem_cons_self ..)
+    have hR' : ∀ A ∈ rest, RightIso A := fun A hA => hR A (List.mem_cons_of_mem _ hA)
+    cases k with
+    | zero =>
+      simp only [corrWalk, List.getElem?_cons_zero, List.length_cons, oneSiteOps_zero, xferAccF]
+      rw [corrEntry_eq d op B hBd acc G hG, xferAccF_tail rest hW.2, ← hW.1]
+      rw [Finset.sum_congr rfl (fun b hb => Finset.sum_congr rfl (fun b' hb' => by
+        rw [rightEnv_delta rest hW.2 hR' b (by rw [← hW.1]; exact Finset.mem_range.mp hb) b'
+          (by rw [← hW.1]; exact Finset.mem_range.mp hb')]))]
+      rw [sum_delta_right]
+    | succ k =>
+      simp only [corrWalk, List.getElem?_cons_succ, List.length_cons, oneSiteOps_succ, xferAccF]
+      exact ih hW.2 (fun A hA => hd A (List.mem_cons_of_mem _ hA)) hR' _ _
+        (corrNext_eq d B hBd acc G hG) k (by simpa using hk)
+
+/-- `⟨ψ| O_i O_j |ψ⟩` (`i < j`) in transfer form -/
+def pairVal (O : Nat → Nat → K) (fs : List (Site K)) (i j : Nat) : K :=
+  xferAccF fs (twoSiteOps fs.length i j O) (fun _ _ => 1) 0 0
+
+theorem twoSiteOps_eq (n i j : Nat) (O : Nat → Nat → K) (hij : i < j) (hj : j < n) :
+    twoSiteOps n i j O = List.replicate i identOp ++ O :: oneSiteOps (n - i - 1) (j - i - 1) O := by
+  unfold twoSiteOps oneSiteOps
+  have : n - i - 1 - (j - i - 1) - 1 = n - j - 1 := by omega
+  rw [this]
+
+theorem corrRow_spec (d : Nat) (op : Nat → Nat → K) (fs : List (Site K)) (i : Nat) (hi : i < fs.length)
+    (hW : Wf fs) (h1 : headDl fs = 1) (hd : ∀ A ∈ fs, A.d = d) (hc : Canonical fs i) :
+    (corrRow d op (fs.drop i))[0]? = some (siteVal op fs i) ∧
+      ∀ k, 0 < k → i + k < fs.length → (corrRow d op (fs.drop i))[k]? = some (pairVal op fs i (i + k)) := by
+  have hA : fs[i]? = some fs[i] := List.getElem?_eq_getElem hi
+  generalize fs[i] = A at hA
+  obtain ⟨e, lp, ls⟩ := list_split fs i A hA
+  have hAd : A.d = d := hd A (List.mem_of_getElem? hA)
+  have hRm : ∀ B ∈ fs.drop (i + 1), RightIso B := by
+    intro B hB
+    obtain ⟨j, hj, e'⟩ := mem_drop_index fs (i + 1) B hB
+    exact hc.2 j (by omega) B e'
+  have hLm : ∀ B ∈ fs.take i, LeftIso B := by
+    intro B hB
+    obtain ⟨j, hj, e'⟩ := mem_take_index fs i B hB
+    exact hc.1 j hj B e'
+  have hLE := leftEnv_delta_at fs i A hA hW h1 hLm
+  have hdrop : fs.drop i = A :: fs.drop (i + 1) := by
+    rw [List.drop_eq_getElem_cons hi]
+    congr 1
+    have := List.getElem?_eq_getElem hi
+    rw [hA] at this
+    exact (Option.some.inj this).symm
+  have hWA : Wf (A :: fs.drop (i + 1)) := wf_append_right (fs.take i) _ (by rw [← e]; exact hW)
+  rw [hdrop]
+  constructor
+  · simp only [corrRow, List.getElem?_cons_zero, corrTrace, sumTo_eq]
+    rw [siteVal_eq op fs i A hA hW]
+    rw [Finset.sum_congr rfl (fun b hb => Finset.sum_congr rfl (fun b' hb' => by
+      rw [rightEnv_delta_at fs i A hA hW hRm b (Finset.mem_range.mp hb) b' (Finset.mem_range.mp hb')]))]
+    rw [sum_delta_right, xferF_congr op _ delta A hLE]
+    exact congrArg some (Finset.sum_congr rfl (fun r _ => corrAcc0_eq d op A hAd r r))
+  · intro k hk hik
+    obtain ⟨k', rfl⟩ : ∃ k', k = k' + 1 := ⟨k - 1, by omega⟩
+    simp only [corrRow, List.getElem?_cons_succ]
+    rw [corrWalk_spec d op (fs.drop (i + 1)) hWA.2
+      (fun B hB => hd B (List.mem_of_mem_drop hB)) hRm (corrAcc0 d op A) (xferF op delta A)
+      (fun a a' => corrAcc0_eq d op A hAd a a') k' (by rw [ls]; omega)]
+    congr 1
+    unfold pairVal
+    rw [twoSiteOps_eq fs.length i (i + (k' + 1)) op (by omega) hik]
+    conv_rhs => rw [e]
+    rw [xferAccF_append _ _ _ _ (by simp [lp])]
+    simp only [xferAccF]
+    have e1 : (fs.take i ++ A :: fs.drop (i + 1)).length - i - 1 = (fs.drop (i + 1)).length := by
+      rw [← e, ls]
+    have e2 : i + (k' + 1) - i - 1 = k' := by omega
+    rw [e1, e2]
+    congr 1
+    have := xferF_congr op (leftEnv fs i) delta A hLE
+    unfold leftEnv at this
+    exact this.symm
+
 end EmuVerif.MpsObs
